@@ -255,28 +255,53 @@ def daemon_phase(ctx, rng, n):
         want.append((infos, nets))
         ctx.dist("daemon:nets-%d" % nets)
         ctx.dist("daemon:cached-version-" + ("before-binding" if not stale else "earlier-ips"))
+    # histories on ONE daemon: a second pod is set up on the same networks after the first - with other IPs, or without any
+    # argument annotation (then its plugins must receive no ipinfos at all: nothing of an earlier request may linger)
+    for i in range(max(8, n // 3)):
+        nets = rng.choice([1, 2, 3])
+        conf = {"NetworkConf": [{"name": "net%d" % j, "type": "fakecni"} for j in range(nets)], "DefaultNetworks": ["net%d" % j for j in range(nets)]}
+        pods, steps, per_step = [], [], []
+        for k in range(rng.choice([2, 2, 3])):
+            infos = gen_infos(rng, ctx) if (k == 0 or rng.random() < 0.5) else None
+            ann = {"k8s.v1.cni.galaxy.io/args": '{"common":{"ipinfos":%s}}' % enc_py(infos)} if infos is not None else {}
+            pods.append({"name": "pod%d" % k, "ns": "ns", "annotations": ann, "eni": False})
+            steps.append({"reqs": [{"cmd": "ADD", "cid": "cid%d" % k, "pod": "pod%d" % k, "ifname": "eth0",
+                                    "args": "IgnoreUnknown=1;K8S_POD_NAMESPACE=ns;K8S_POD_NAME=pod%d;K8S_POD_INFRA_CONTAINER_ID=cid%d" % (k, k),
+                                    "fail_add": [], "fail_del": []}]})
+            per_step.append(infos)
+        cases.append({"conf": conf, "confdir": [], "pods": pods, "steps": steps})
+        want.append((per_step, nets))
+        ctx.dist("daemon:history-%d-pods%s" % (len(pods), "-one-without-args" if any(x is None for x in per_step) else ""))
     obs = ctx.harness("cni", cases, cmd="ghcni", shards=16)
     if obs is None:
         return
     for c, o, (infos, nets) in zip(cases, obs, want):
-        ctx.count({"daemon": c["pods"][0]["annotations"], "nets": nets})
+        ctx.count({"daemon": [p_["annotations"] for p_ in c["pods"]], "nets": nets})
         if o is None or o.get("res") != "ok":
             ctx.violation("correspondence", "the daemon case did not run: %s" % str(o)[:300], {"case": c}, found=False, theorem="C13 daemon path")
             continue
-        log = [l for st in o["steps"] for l in st["log"] if l.get("cmd") == "ADD"]
-        got = []
-        for l in log:
-            kv = dict(p.split("=", 1) for p in l.get("args", "").split(";") if "=" in p)
-            try:
-                got.append(json.loads(kv.get("ipinfos", "null")))
-            except ValueError:
-                got.append("unparsable")
-        exp = json.loads(enc_py(infos))
-        ok = len(log) == nets and all(g == exp for g in got)
+        per_step = infos if len(c["steps"]) > 1 else [infos]
+        ok, allargs, exp_all = len(o["steps"]) == len(per_step), [], []
+        for st, want_infos in zip(o["steps"], per_step):
+            log = [l for l in st["log"] if l.get("cmd") == "ADD"]
+            got = []
+            for l in log:
+                kv = dict(p.split("=", 1) for p in l.get("args", "").split(";") if "=" in p)
+                allargs.append(l.get("args"))
+                if "ipinfos" not in kv:
+                    got.append(None)
+                    continue
+                try:
+                    got.append(json.loads(kv["ipinfos"]))
+                except ValueError:
+                    got.append("unparsable")
+            exp = json.loads(enc_py(want_infos)) if want_infos is not None else None
+            exp_all.append(exp)
+            ok = ok and len(log) == nets and all(g == exp for g in got)
         if not ok:
             ctx.violation("monitor", "the IPs the plugins receive through the real daemon are not the IPs galaxy-ipam persisted in the pod's "
                           "current annotation (ipinfos_end_to_end on the daemon path)",
-                          {"case": c, "plugin_args": [l.get("args") for l in log], "expected_ipinfos": exp,
+                          {"case": c, "plugin_args": allargs, "expected_ipinfos_per_request": exp_all,
                            "cache_reads_by_the_daemon": o.get("cache_reads")}, found=True, theorem="ipinfos_end_to_end")
 
 
